@@ -233,7 +233,7 @@ func (c17) Gen(seed int64, tier string, emit func(any)) {
 	//    [-5,35]^2 grid on many lengths
 	var lens []int
 	if thorough {
-		lens = []int{0, 1, 2, 3, 4, 5, 6, 7, 8, 10, 15, 20, 30}
+		lens = []int{0, 1, 2, 3, 7, 12, 30}
 	} else {
 		lens = []int{0, 1, 2, 3, 4, 7, 12, 30}
 	}
